@@ -451,8 +451,25 @@ def counters_with_defaults():
     return None
 
 
+def counters_on_an_edited_list():
+    """count, let the caller edit the very same list, count again: every call answers for the notes it is given"""
+    n, g, c = G()
+    from simfile.timing import Beat
+    T = n.NoteType
+    notes = [n.Note(Beat(0), 0, T.TAP), n.Note(Beat(0), 1, T.TAP), n.Note(Beat(1), 0, T.TAP)]
+    first = (c.count_steps(notes), c.count_jumps(notes), c.count_hands(notes), c.count_mines(notes))
+    notes += [n.Note(Beat(2), 0, T.TAP), n.Note(Beat(2), 1, T.TAP), n.Note(Beat(2), 2, T.LIFT), n.Note(Beat(3), 0, T.MINE)]
+    second = (c.count_steps(notes), c.count_jumps(notes), c.count_hands(notes), c.count_mines(notes))
+    del notes[1:]
+    third = (c.count_steps(notes), c.count_jumps(notes), c.count_hands(notes), c.count_mines(notes))
+    if (first, second, third) != ((2, 1, 0, 0), (3, 2, 1, 1), (1, 0, 0, 0)):
+        return dict(input="count_steps/jumps/hands/mines on one list: 3 notes, then 7 (appended in place), then 1 (truncated in place)",
+                    detail=f"counts {first}, {second}, {third}; the documentation gives (2, 1, 0, 0), (3, 2, 1, 1), (1, 0, 0, 0)")
+    return None
+
+
 def witness_search(tier, seed):
-    w = counters_with_defaults()
+    w = counters_with_defaults() or counters_on_an_edited_list()
     if w:
         return w
     for k in range(GroupVsStatement.PARTS):
